@@ -130,6 +130,26 @@ def check_index(case):
     return fails, (op, len(x), len(ex))
 
 
+@kind("truncate-sequence")
+def check_truncate_sequence(case):
+    """process.truncate is a function of the array CONTENT at call time: truncate, change the same arrays in place, truncate again"""
+    from traffic_weaver.process import truncate
+    x = np.array(case["x"], dtype=float)
+    y = np.array(case["y"], dtype=float)
+    fails = []
+    for step, (shift, left, right) in enumerate(case["steps"]):
+        if shift:
+            x += shift
+            y *= 2.0
+        gx, gy = truncate(x, y, left, right)
+        fx, fy = [float(v) for v in x], [float(v) for v in y]
+        lo, hi = ref_truncate(fx, left, right)
+        if [float(v) for v in gx] != fx[lo:hi + 1] or [float(v) for v in gy] != fy[lo:hi + 1]:
+            fails.append(fail("truncate-after-in-place-edit", {"step": step, "observed": gx, "expected": fx[lo:hi + 1]}, {"path": "process-sequence"}))
+            break
+    return fails, (len(case["x"]), tuple(tuple(s_) for s_ in case["steps"]))
+
+
 SLICE_HIST_OPS = [("shift_x", 2.0), ("scale_x", 2.0), ("restore_original",), ("truncate_by_index", 1, None), ("append", False),
                   ("normalize_x", 0.0, 1.0), ("repeat", 2), ("observe", "slice_by_value")]
 
@@ -240,5 +260,17 @@ def harnesses(tier, seed):
         judge(ctx, check_slice_history, {"init": ii, "ops": [list(o) for o in ops]}, calls=4 * len(ops) + 4,
               nontrivial=lambda sg: sg[0] != "skipped")
 
-    return [{"name": "slice-by-value-in-every-state", "body": slice_hist_body}, {"name": "truncate-by-value", "body": trunc_body}, {"name": "slice-by-value", "body": slice_body},
+    def trunc_seq_body(ctx):
+        g = ctx.choose(grids, "grid")
+        x = [float(v) for v in g]
+        s1 = ctx.choose([0.0, 3.0, -2.5, 100.0], "shift1")
+        s2 = ctx.choose([0.0, 3.0, -4.0], "shift2")
+        l0, r0 = x[0] + 0.5, x[-1] - 0.5
+        if l0 >= r0:
+            return
+        steps = [[0.0, l0, r0], [s1, l0 + s1, r0 + s1 + 0.25], [s2, l0 + s1 + s2 - 0.25, r0 + s1 + s2]]
+        judge(ctx, check_truncate_sequence, {"x": x, "y": yv(len(x)), "steps": steps}, calls=3)
+
+    return [{"name": "truncate-same-array-edited-in-place", "body": trunc_seq_body},
+            {"name": "slice-by-value-in-every-state", "body": slice_hist_body}, {"name": "truncate-by-value", "body": trunc_body}, {"name": "slice-by-value", "body": slice_body},
             {"name": "index-ranges", "body": index_body}]
